@@ -7,7 +7,10 @@ support.py get_state / set_state).  Tie to /repo, on every run:
     with padding) and compared exactly on float32 bit patterns;
   * oracle: the same real runs are compared with mujoco.mj_getState / mj_setState / mj_stateSize
     world by world, inactive worlds must be untouched, get must not modify Data, set must not
-    modify the state array, out-of-range signatures must raise in both functions."""
+    modify the state array, out-of-range signatures must raise in both functions;
+  * sequences: masked/unmasked calls in both orders (unmasked first, masked first), alternating signatures and
+    nworld, each order in a fresh interpreter, same oracle (unselected worlds bit-identical);
+  * S: ast skeleton of how get_state/set_state build and launch their wp.static-specialised kernels."""
 
 from __future__ import annotations
 
@@ -19,7 +22,7 @@ import propkit
 import vlib
 
 MANIFEST = {
-  "text": "proof: for the executable model of the _get_state/_set_state kernels and their wrappers (same NSTATE bit loop, same index loops, in-place writes, active mask, range test), for arbitrary component sizes and every integer signature that reaches the kernel: get writes exactly the selected components in ascending bit order (state_size values) and leaves the rest of the row; set-then-get returns the input when the eq_active slice is 0/1; get-then-set is the identity; arrays with a clear bit are unchanged; inactive worlds are neither read nor written; every signature outside [0, 2^NSTATE) raises and every signature inside is accepted; plus an in-Coq sweep of all 2^14 signatures on one concrete model. Tested only: that the model is the code (correspondence on float32 bit patterns) and agreement with mujoco.mj_getState/mj_setState/mj_stateSize",
+  "text": "proof: for the executable model of the _get_state/_set_state kernels and their wrappers (same NSTATE bit loop, same index loops, in-place writes, active mask, range test), for arbitrary component sizes and every integer signature that reaches the kernel: get writes exactly the selected components in ascending bit order (state_size values) and leaves the rest of the row; set-then-get returns the input when the eq_active slice is 0/1; get-then-set is the identity; arrays with a clear bit are unchanged; inactive worlds are neither read nor written; every signature outside [0, 2^NSTATE) raises and every signature inside is accepted; plus an in-Coq sweep of all 2^14 signatures on one concrete model. Tested/skeleton only: that the kernels are rebuilt on every call (ast skeleton: the wp.static(active is not None) specialisation cannot go stale) with masked/unmasked call sequences in both orders in fresh processes; that the model is the code (correspondence on float32 bit patterns) and agreement with mujoco.mj_getState/mj_setState/mj_stateSize",
   "note": "trusted: Coq kernel; hand-written model Model/StateCodec.v (tied to the real functions by the per-run correspondence, exact on bit patterns); flat-list view of Warp vec/quat/spatial_vector arrays; mujoco binary as oracle; out-of-bounds behaviour (state row narrower than the state size, short active array) is excluded by hypothesis and belongs to C17",
   "technique": "Rocq proof over a hand-written executable model (induction over the bit list + loop invariants), exhaustive vm_compute sweep, per-run model/implementation correspondence and differential oracle against MuJoCo",
   "engine": "coq",
@@ -118,8 +121,9 @@ class Setup:
     self.mm = mjw.put_model(self.m)
     self.dd = mjw.put_data(self.m, self.d, nworld=nworld)
     self.base = {}
+    self.views = {f: getattr(self.dd, f).numpy() for f in FIELDS}  # CPU: zero-copy views of the device arrays
     for f in FIELDS:
-      v = getattr(self.dd, f).numpy()
+      v = self.views[f]
       if f == "eq_active":
         self.base[f] = rng.random(v.shape) < 0.5
       else:
@@ -148,7 +152,7 @@ class Setup:
 
   def restore(self):
     for f in FIELDS:
-      getattr(self.dd, f).numpy()[...] = self.base[f]  # CPU: zero-copy view
+      self.views[f][...] = self.base[f]
 
   def read(self):
     return {f: getattr(self.dd, f).numpy().copy() for f in FIELDS}
@@ -309,6 +313,147 @@ def mujoco_check(su, kind, sig, active, rows0, raised, st_after, data_after):
 
 
 # ---------------------------------------------------------------------------------------------
+# ---- S: how the two public functions build and launch their kernels (ast skeleton) -------------------------
+def kernel_skeleton():
+  """The kernels are specialised at BUILD time by `wp.static(active is not None)`.  That is only sound if the
+  kernel object is rebuilt by every call (decorator `wp.kernel(module="unique", ...)` applied directly to the
+  nested def, which is then the object handed to wp.launch).  Anything else -- another decorator, a memo
+  table, a kernel fetched from outside the function -- may reuse a stale specialisation and fails this
+  obligation (fail closed; a cache keyed by every wp.static dependency would have to be modelled first).
+  Returns (problems, facts)."""
+  import ast
+  import os
+
+  path = os.path.join(vlib.REPO, "mujoco_warp", "_src", "support.py")
+  tree = ast.parse(open(path).read())
+  problems, facts = [], {}
+  for fname, kname in (("get_state", "_get_state"), ("set_state", "_set_state")):
+    fn = next((n for n in tree.body if isinstance(n, ast.FunctionDef) and n.name == fname), None)
+    if fn is None:
+      problems.append(f"{fname}: not found")
+      continue
+    params = {a.arg for a in fn.args.args}
+    kdefs = [n for n in fn.body if isinstance(n, ast.FunctionDef)]
+    if [k.name for k in kdefs] != [kname]:
+      problems.append(f"{fname}: nested kernel defs {[k.name for k in kdefs]} (expected exactly [{kname}] directly in the body)")
+      continue
+    k = kdefs[0]
+    decs = [ast.unparse(d) for d in k.decorator_list]
+    ok_dec = False
+    if len(k.decorator_list) == 1 and isinstance(k.decorator_list[0], ast.Call):
+      c = k.decorator_list[0]
+      if ast.unparse(c.func) == "wp.kernel" and not c.args and any(kw.arg == "module" and isinstance(kw.value, ast.Constant) and kw.value.value == "unique" for kw in c.keywords):
+        ok_dec = True
+    if not ok_dec:
+      problems.append(f"{fname}: kernel {kname} is built by {decs}, not by wp.kernel(module=\"unique\", ...) on every call")
+    statics = [ast.unparse(n.args[0]) for n in ast.walk(k) if isinstance(n, ast.Call) and ast.unparse(n.func) == "wp.static" and n.args]
+    deps = sorted({x.id for n in ast.walk(k) if isinstance(n, ast.Call) and ast.unparse(n.func) == "wp.static" for a in n.args for x in ast.walk(a) if isinstance(x, ast.Name)} - {"State"})
+    if not set(deps) <= params:
+      problems.append(f"{fname}: wp.static depends on {deps}, not all parameters of {fname}")
+    # the kernel name must not be rebound, and must be what wp.launch receives
+    rebinds = [n for n in ast.walk(fn) if isinstance(n, (ast.Assign, ast.AugAssign, ast.AnnAssign)) and any(isinstance(t, ast.Name) and t.id == kname for t in ast.walk(n.targets[0] if isinstance(n, ast.Assign) else n.target))]
+    if rebinds:
+      problems.append(f"{fname}: {kname} is rebound after its definition")
+    launches = [n for n in ast.walk(fn) if isinstance(n, ast.Call) and ast.unparse(n.func) == "wp.launch"]
+    if len(launches) != 1 or not launches[0].args or ast.unparse(launches[0].args[0]) != kname:
+      problems.append(f"{fname}: wp.launch does not launch the freshly built {kname} ({[ast.unparse(l.args[0]) if l.args else '?' for l in launches]})")
+    if any(isinstance(n, (ast.Global, ast.Nonlocal)) for n in ast.walk(fn)):
+      problems.append(f"{fname}: uses global/nonlocal state")
+    facts[fname] = {"decorator": decs, "static": statics, "static_deps": deps}
+  return problems, facts
+
+
+# ---- in-process call SEQUENCES, each order in a fresh interpreter ------------------------------------------
+SEQ_ORDERS = ("unmasked-first", "masked-first")
+
+
+def mask_of(kind, nworld, rng):
+  if kind == "none":
+    return None
+  if kind == "nobody":
+    return [False] * nworld
+  if kind == "all":
+    return [True] * nworld
+  if kind == "first":
+    return [True] + [False] * (nworld - 1)
+  m = [bool(x) for x in rng.random(nworld) < 0.5]
+  if all(m):
+    m[int(rng.integers(nworld))] = False
+  return m
+
+
+def sequence_plan(order, tier):
+  """[(setup index, kind, sig, mask kind)]: the first call of each function is unmasked or masked according to
+  `order`; afterwards masked and unmasked calls, signatures and nworld alternate."""
+  rng = np.random.default_rng(vlib.seed() + 1500 + SEQ_ORDERS.index(order))
+  first = "none" if order == "unmasked-first" else "some"
+  plan = [(0, "set_state", (1 << NSTATE) - 1, first), (0, "get_state", (1 << NSTATE) - 1, first)]
+  n = 60 if tier == "quick" else 400
+  kinds = ["some", "none", "first", "nobody", "some", "all"]
+  for j in range(n):
+    su = int(rng.integers(0, 4))
+    sig = int(rng.integers(0, 1 << NSTATE)) if j % 3 else [(1 << NSTATE) - 1, 2 | 4, 1 | 512 | 256][(j // 3) % 3]
+    plan.append((su, "set_state" if j % 2 == 0 else "get_state", sig, kinds[(j // 2) % len(kinds)]))
+  return plan
+
+
+def sequence_child(order, tier):
+  """Runs in a fresh interpreter: prints one JSON line with the failures of the sequence."""
+  import mujoco_warp as mjw
+
+  rng = np.random.default_rng(vlib.seed() + 1600 + SEQ_ORDERS.index(order))
+  specs = [(FULL_XML, 2), (FULL_XML, 3), (MIN_XML, 2), (FULL_XML, 1)]
+  setups = [Setup(rng, i, x, nw) for i, (x, nw) in enumerate(specs)]
+  fails, history = [], []
+  for idx, kind, sig, mk in sequence_plan(order, tier):
+    su = setups[idx]
+    active = mask_of(mk, su.nworld, rng)
+    lay, size = layout(su.m, sig)
+    rows0 = [rand_bits(rng, size + 1, finite=True) for _ in range(su.nworld)]
+    if kind == "set_state":
+      for i, o, s_ in lay:
+        if i == 9:
+          for r in rows0:
+            r[o : o + s_] = np.array(EQ_VALUES[:6], dtype=np.uint32)[rng.integers(0, 6, s_)]
+    fn = mjw.get_state if kind == "get_state" else mjw.set_state
+    raised, st_after, data_after = call_real(fn, su, rows0, sig, active)
+    rows0a = np.asarray(rows0, dtype=np.uint32).reshape(su.nworld, -1)
+    for key, what, extra in mujoco_check(su, kind, sig, active, rows0a, raised, st_after, data_after):
+      if len(fails) < 6:
+        prelude = [h for h in history if h["kind"] == kind][:1]  # the call that built/cached this function's kernel
+        fails.append({"key": key, "what": f"{what} [call #{len(history)} of the '{order}' sequence in a fresh process; first {kind} call of the process had mask={prelude[0]['mask'] if prelude else mk}]",
+                      "data": dict(extra, xml=su.xml, nworld=su.nworld, sig=int(sig), active=active, kind=kind, order=order, prelude=prelude,
+                                   rows=[[int(x) for x in r] for r in rows0a], base={f: (su.base[f].astype(np.float64).tolist() if f != "eq_active" else su.base[f].tolist()) for f in FIELDS})})  # fmt: skip
+    history.append({"kind": kind, "sig": int(sig), "mask": mk, "nworld": su.nworld})
+  print("C15SEQ " + json.dumps({"order": order, "calls": len(history), "fails": fails}), flush=True)
+
+
+def start_sequences(tier):
+  import os
+  import subprocess
+
+  env = dict(os.environ)
+  procs = {}
+  for order in SEQ_ORDERS:
+    code = f"import warp as wp; wp.config.quiet=True; import props.C15 as c; c.sequence_child({order!r}, {tier!r})"
+    procs[order] = subprocess.Popen([vlib.PY, "-c", code], env=env, stdout=subprocess.PIPE, stderr=subprocess.PIPE, text=True)
+  return procs
+
+
+def collect_sequences(procs, timeout):
+  out = {}
+  for order, p in procs.items():
+    try:
+      so, se = p.communicate(timeout=timeout)
+    except Exception as e:  # noqa
+      p.kill()
+      out[order] = {"error": f"{type(e).__name__}: {e}"}
+      continue
+    line = next((l for l in so.splitlines() if l.startswith("C15SEQ ")), None)
+    out[order] = json.loads(line[7:]) if line else {"error": "no result line; rc=%s; %s" % (p.returncode, se[-800:])}
+  return out
+
+
 def signature_list(rng, tier):
   import mujoco_warp as mjw
 
@@ -318,7 +463,7 @@ def signature_list(rng, tier):
     sigs = [1 << i for i in range(NSTATE)] + [0, (1 << NSTATE) - 1] + named
     sigs += [int(x) for x in rng.integers(0, 1 << NSTATE, 300)]
   else:
-    sigs = named + list(range(1 << NSTATE))
+    sigs = named + [int(x) for x in rng.permutation(1 << NSTATE)]  # random order: a run cut by the time budget is still a uniform sample
   return sigs
 
 
@@ -333,7 +478,13 @@ def run(res):
   import time
 
   t0 = time.time()
+  seq_procs = start_sequences(res.tier)  # fresh interpreters, run while the proofs are checked
   ok, trs, failing = propkit.prove(res, PROPS)
+  sk_problems, sk_facts = kernel_skeleton()
+  res.obligation(
+    "S: get_state/set_state rebuild their wp.static-specialised kernel on every call (wp.kernel(module=\"unique\") applied to the nested def that wp.launch receives; no kernel cache)",
+    not sk_problems, "; ".join(sk_problems) if sk_problems else json.dumps(sk_facts),
+  )  # fmt: skip
   vlib.log(f"[C15] prove (incl. waiting for the build lock): {time.time() - t0:.1f} s")
   t0 = time.time()
   rng = np.random.default_rng(vlib.seed() + 15)
@@ -364,7 +515,7 @@ def run(res):
   oracle_fails = []
   records = []
 
-  def one_case(su, kind, sig, active, rows0):
+  def one_case(su, kind, sig, active, rows0, to_coq=True):
     fn = mjw.get_state if kind == "get_state" else mjw.set_state
     raised, st_after, data_after = call_real(fn, su, rows0, sig, active)
     rows0a = np.asarray(rows0, dtype=np.uint32).reshape(su.nworld, -1)
@@ -376,9 +527,11 @@ def run(res):
     else:
       exp = [-1] if raised is not None else [x for w in range(su.nworld) for x in Setup.flat_world(data_after, w)]
       term = f"flat_datas (set_stateZ {su.name}_sz {coq_sig(sig)} {coq_active(active)} {coq_rows(rows0a)} {su.name}_ds)"
-    lines.append(f"tvz ({term}) {vlib.zlist(exp)}")
+    if to_coq:
+      lines.append(f"tvz ({term}) {vlib.zlist(exp)}")
     mk = "none" if active is None else ("all" if all(active) else ("nobody" if not any(active) else "some"))
-    meta.append((kind, {"setup": su.idx, "nworld": su.nworld, "sig": int(sig), "active": None if active is None else [bool(a) for a in active], "raised": raised}))
+    if to_coq:
+      meta.append((kind, {"setup": su.idx, "nworld": su.nworld, "sig": int(sig), "active": None if active is None else [bool(a) for a in active], "raised": raised}))
     res.count()
     res.nontrivial((kind, int(sig), mk, su.idx))
     return raised
@@ -393,7 +546,18 @@ def run(res):
       return [True] * su.nworld
     return [bool(x) for x in rng.random(su.nworld) < 0.6]
 
+  # thorough tier: every signature goes through the real functions and the MuJoCo oracle (time budget below),
+  # the first COQ_SAMPLE of them also through the Coq model (the model side of all 2^14 is the in-Coq sweep)
+  COQ_SAMPLE = len(sigs) if quick else 1500
+  BUDGET = 1e9 if quick else 210.0
+  t_loop = time.time()
+  ndone = 0
   for n, sig in enumerate(sigs):
+    if time.time() - t_loop > BUDGET:
+      res.notes.append(f"time budget: {ndone} of {len(sigs)} signatures (random order) went through the real functions")
+      break
+    ndone += 1
+    to_coq = n < COQ_SAMPLE
     su = setups[n % len(setups)] if n >= 2 * NSTATE else setups[n % 3]  # single bits on the full model
     isig = int(sig)
     lay, size = layout(su.m, isig)
@@ -401,7 +565,7 @@ def run(res):
     # get: rows with random padding and random previous content
     width = size + int(rng.integers(0, 4))
     rows0 = [rand_bits(rng, width) for _ in range(su.nworld)]
-    one_case(su, "get_state", sig, active, rows0)
+    one_case(su, "get_state", sig, active, rows0, to_coq)
     # set: random values everywhere, eq_active slots from a pool of truthy / falsy / odd values
     active = rand_active(su)
     width = size + int(rng.integers(0, 3))
@@ -410,12 +574,13 @@ def run(res):
       if i == 9:
         for r in rows0:
           r[o : o + s] = np.array(EQ_VALUES, dtype=np.uint32)[rng.integers(0, len(EQ_VALUES), s)]
-    one_case(su, "set_state", sig, active, rows0)
+    one_case(su, "set_state", sig, active, rows0, to_coq)
     # size function
     import mujoco
 
-    lines.append(f"tvz [state_sizeZ {su.name}_sz {coq_sig(isig)}] {vlib.zlist([mujoco.mj_stateSize(su.m, isig)])}")
-    meta.append(("size", {"setup": su.idx, "sig": isig}))
+    if to_coq:
+      lines.append(f"tvz [state_sizeZ {su.name}_sz {coq_sig(isig)}] {vlib.zlist([mujoco.mj_stateSize(su.m, isig)])}")
+      meta.append(("size", {"setup": su.idx, "sig": isig}))
     if n < 3:
       res.sample({"kind": "get/set", "model": su.xml[:300], "nworld": su.nworld, "sig": isig, "state_size": size})
 
@@ -464,6 +629,23 @@ def run(res):
   )  # fmt: skip
   res.extra["correspondence"] = {"cases": len(verdicts), "disagree": len(cbad), "setups": [{"nworld": su.nworld, "sizes": comp_sizes(su.m)} for su in setups]}
 
+  # ---- call sequences run in fresh interpreters (stale kernel specialisation, order dependence)
+  seq = collect_sequences(seq_procs, 600)
+  seq_err = {o: r["error"] for o, r in seq.items() if "error" in r}
+  nseq = 0
+  for o, r in seq.items():
+    for f in r.get("fails", []):
+      oracle_fails.append((f["key"], f["what"], f["data"]))
+    nseq += r.get("calls", 0)
+    res.count(r.get("calls", 0))
+    res.nontrivial(("sequence", o))
+  res.obligation(
+    "oracle: masked/unmasked call sequences in both orders, each in a fresh process: unselected worlds bit-identical, selected worlds = MuJoCo",
+    not seq_err and not any(r.get("fails") for r in seq.values()), json.dumps({o: (r.get("error") or f"{r['calls']} calls, {len(r['fails'])} failures") for o, r in seq.items()}),
+  )  # fmt: skip
+  if seq_err:
+    res.violation("machinery:C15-sequence-subprocess", "sequence subprocess failed", seq_err, found_input=False)
+
   # ---- report
   seen = set()
   for key, what, data in oracle_fails:
@@ -479,6 +661,8 @@ def run(res):
     res.violation("C15:model-mismatch", "the Coq model of get_state/set_state disagrees with the real functions (theorems no longer tied to the code)", cbad[:3], found_input=False)
   if not ok and not oracle_fails:
     propkit.broken_proof_violation(res, "C15 theorems over Model/StateCodec.v", failing)
+  if sk_problems and not oracle_fails:
+    propkit.broken_proof_violation(res, "C15 kernel-construction skeleton of get_state/set_state", "skeleton:support.py:get_state/set_state", sk_problems)
   res.assumptions += [
     "values are opaque to the codec: theorems are for an arbitrary value type with float(bool)/bool(float) as parameters; the correspondence instantiates float32 bit patterns (bool(x) false exactly for +0.0/-0.0)",
     "state rows at least state_size wide, Data arrays shaped like the Model sizes, active array of length nworld (otherwise out-of-bounds accesses: property C17)",
@@ -505,6 +689,11 @@ def replay(res, path):
   sig = int(r["sig"])
   rows = r.get("rows") or [[0] * (layout(su.m, sig & ((1 << NSTATE) - 1))[1] + 1)] * su.nworld
   fn = mjw.get_state if kind == "get_state" else mjw.set_state
+  for h in r.get("prelude") or []:  # earlier calls of the same process that the failure depends on
+    hfn = mjw.get_state if h["kind"] == "get_state" else mjw.set_state
+    hrows = [[0] * (layout(su.m, int(h["sig"]))[1] + 1)] * su.nworld
+    hraised, _, _ = call_real(hfn, su, hrows, int(h["sig"]), mask_of(h["mask"], su.nworld, rng))
+    print(f"prelude: mjw.{h['kind']}(sig={h['sig']}, mask={h['mask']}) raised={hraised}")
   raised, st_after, data_after = call_real(fn, su, rows, sig, r.get("active"))
   rows0 = np.asarray(rows, dtype=np.uint32).reshape(su.nworld, -1)
   fails = mujoco_check(su, kind, sig, r.get("active"), rows0, raised, st_after, data_after)
